@@ -145,8 +145,20 @@ def canon(msg, original=None):
     # rule 3
     if original is None:
 
+        # Below IR version 10 the type information of function values is kept in the main graph's value_info under
+        # "{domain}::{function}/{value}": such an entry names a value of a model-local function and is referenced
+        fn_value_names = set()
+        if isinstance(m, onnx.ModelProto) and m.ir_version < 10:
+            for f in m.functions:
+                inner = []
+                _all_nodes(f, inner)
+                for v in list(f.input) + [o for n in inner for o in n.output if o]:
+                    fn_value_names.add(f"{f.domain}::{f.name}/{v}")
+
         def drop_unreferenced(g):
             names = {i.name for i in g.input} | {t.name for t in g.initializer} | {o for n in g.node for o in n.output}
+            if isinstance(m, onnx.ModelProto) and g is m.graph:
+                names |= fn_value_names
             keep = [v for v in g.value_info if v.name in names]
             if len(keep) != len(g.value_info):
                 cp = [onnx.ValueInfoProto() for _ in keep]
